@@ -136,7 +136,7 @@ Next ==
                         "x_tick", "x_failure", "x_exception", "x_done"} -> XStep(ev) /\ UNCHANGED <<solved, verdicts, expects>>
           [] ev.e = "expect" -> expects' = expects \cup {ev} /\ UNCHANGED <<solved, verdicts, xs>>
           [] ev.e = "verdict" ->
-               /\ Chk({"C16"}, "ValidProgramSolved",
+               /\ Chk({"C16", "C17"}, "ValidProgramSolved",
                       (\E x \in ExpectsFor(ev.name) : x.kind \in {"arith", "bool"}) => ev.verdict = "solved")
                \* a problem that has no solution by construction (the generator knows why) is not answered "solved"
                /\ Chk({"C01", "C02", "C03"}, "KnownUnsolvableNotSolved",
